@@ -9,8 +9,8 @@ ROOT = "/verif"
 NOTE = "Trusts go/types + go/ssa (x/tools v0.29.0), the rule tables in /verif/checker/cmd/pebblevet/rules_*.go and the contracts of callees outside the rule (e.g. Sync makes prior writes durable). Path feasibility is not decided: declared bypass guards are explicit per instance (DESIGN.md section 4). Decides a structural NECESSARY condition of the property, not the behaviour itself."
 
 NOT_APPLICABLE = {
-    "C02": "Iterator positioning is a function of runtime keys/bounds and the iterPos state machine; no clause is visible in the shape of the code without re-deriving the algorithm (value-level).",
-    "C25": "SSTable round trip is value-level over runtime keys and writer options.",
+    "C02": "Iterator positioning is a function of runtime keys/bounds and the iterPos / requiresReposition / limit state machine. The clauses that look structural (never outside the bounds, never another prefix in prefix mode) are enforced by comparisons inside that state machine; a rule for them would have to re-derive the algorithm (value-level). Bounds propagation to child iterators was looked at (Iterator.SetBounds) and found to be one straight-line sequence with no path on which a child is skipped; not claimed.",
+    "C25": "SSTable round trip is value-level over runtime keys and writer options. The structural agreements between the writers and the readers that were found are decided under other ids (C27 checksums and cache tags, C28 codec tables, C26 filter feed, C15 recorded bounds); nothing further is claimed under C25.",
     "C32": "Span fragmentation coverage is a value-level algorithm on runtime spans.",
     "C35": "Comparer contracts quantify over all byte strings; needs a solver or exhaustive exploration, not static shape.",
 }
